@@ -11,7 +11,7 @@
    helpers; eval64 / fold64 are the binary64 (Flocq) instance that the correspondence check runs. *)
 From Coq Require Import String.
 From VP Require Import Base.Tactics Expr.Syntax Expr.Float Expr.Gen_EvalTables Expr.Gen_FoldRules Expr.Model
-  Expr.ProofsBase Expr.ProofsC10 Expr.ProofsC11 Expr.B64 Expr.Run.
+  Expr.ProofsBase Expr.ProofsC10 Expr.ProofsC10Total Expr.ProofsC11 Expr.B64 Expr.Run.
 Close Scope string_scope.
 Local Open Scope list_scope.
 Local Open Scope Z_scope.
@@ -43,6 +43,11 @@ Theorem C10_fold_sound_b64 : forall e : E,
   ~ Known_C10_identity b64ops e ->
   exists e', fold64 e = Some e' /\ forall env, eval64 env e' = eval64 env e.
 Proof. intros e HK. exact (C10_fold_sound b64ops xb64 e HK). Qed.
+
+(* On every expression, inside the class or not, the folder returns: folding never panics (in
+   particular not on `MIN / -1`, `MIN % -1`, `-MIN`, which used to abort parse()). *)
+Theorem C10_fold_never_panics : forall (O : fops) (e : expr O), exists e', fold O e = Some e'.
+Proof. exact fold_total. Qed.
 
 (* The class is a genuine finding: `price * 0` is in it, folds to the integer 0, and evaluates to
    the float 0.0 when price is the float 2.5; `name + 0` folds to `name`, a string, where the
